@@ -3,43 +3,12 @@
    and rendering of the model's and the Spec's results in the harness's canonical line format
    (harness/src/cmd/cenc.rs, cresp.rs). Not used by any theorem. *)
 From Coq Require Import NArith List Bool Arith String Ascii.
+From Rodbus Require Export Base.CaseGen.
 From Rodbus Require Import Base.Show Base.Outcome Base.Cursor Base.ClientTypes Model.Format Model.Range Model.ClientRequest Model.ClientPaths Model.ClientSession
   Spec.ClientCodecSpec Gen.ClientTables.
 Import ListNotations.
 Local Open Scope string_scope.
 Local Open Scope N_scope.
-
-(* ---- value vectors: `s<seed>` with a count, or an explicit list ---- *)
-Inductive vals := Seed (seed n : N) | Lst (l : list N).
-
-Definition gen_u16 (seed i : N) : N :=
-  if seed =? 0 then 0 else if seed =? 1 then 65535
-  else N.land (seed * 7919 + i * 25173 + N.shiftr i 3 * 4099 + 13849) 65535.   (* = (.. + (i / 8) * 4099 + ..) mod 65536 *)
-Fixpoint gen_list (fuel : nat) (seed i : N) : list N :=
-  match fuel with O => [] | S f => gen_u16 seed i :: gen_list f seed (i + 1) end.
-Definition expand (v : vals) : list N :=
-  match v with Seed s n => gen_list (N.to_nat n) s 0 | Lst l => l end.
-Definition to_coil (seeded : bool) (v : N) : bool :=
-  if seeded then N.testbit v 4 else negb (v =? 0).   (* (v / 16) mod 2 = 1 *)
-Definition expand_bits (v : vals) : list bool :=
-  match v with
-  | Seed s n => if s =? 0 then repeat false (N.to_nat n) else if s =? 1 then repeat true (N.to_nat n)
-                else map (to_coil true) (gen_list (N.to_nat n) s 0)
-  | Lst l => map (to_coil false) l
-  end.
-
-(* kind = Modbus function number; c = count / value as in the harness input line *)
-Definition mk_call (kind s c : N) (v : vals) : call :=
-  match kind with
-  | 1 => CReadCoils s c
-  | 2 => CReadDiscreteInputs s c
-  | 3 => CReadHoldingRegisters s c
-  | 4 => CReadInputRegisters s c
-  | 5 => CWriteSingleCoil s (negb (c =? 0))
-  | 6 => CWriteSingleRegister s c
-  | 15 => CWriteMultipleCoils s (expand_bits v)
-  | _ => CWriteMultipleRegisters s (expand v)
-  end.
 
 Definition show_err (e : req_err) : string :=
   match e with
@@ -111,9 +80,9 @@ Definition run_session_case (x : session_case) : string :=
 
 (* ---- C03: the complete byte stream of one connection with a scripted peer and transport:
    (tcp?, [(style, kind, unit, start, count/value, values, cut (0 = none, k+1 = after k bytes), lost?)]) ---- *)
-Definition stream_case := (bool * list (N * N * N * N * N * vals * N * bool))%type.
+Definition stream_case := (bool * N * list (N * N * N * N * N * vals * N * bool))%type.   (* tcp?, the session's first transaction id, calls *)
 Definition run_stream_case (x : stream_case) : string :=
-  let '(tcp, l) := x in
+  let '(tcp, first_id, l) := x in
   let calls := map (fun y : N * N * N * N * N * vals * N * bool => let '(style, kind, uid, s, c, v, cut, lost) := y in
                       (path_of style, uid, mk_call kind s c v,
                        (if cut =? 0 then TxAll else TxCut (N.to_nat (cut - 1))),
@@ -121,38 +90,12 @@ Definition run_stream_case (x : stream_case) : string :=
   let spec := map (fun y : N * N * N * N * N * vals * N * bool => let '(style, kind, uid, s, c, v, cut, lost) := y in
                       (uid, mk_call kind s c v,
                        {| cut_after := (if cut =? 0 then None else Some (N.to_nat (cut - 1))); connection_lost := lost |})) l in
-  both (show_bytes (session_stream (framing_of tcp) 0 calls)) (show_bytes (ref_session_stream tcp 0 spec)).
+  both (show_bytes (session_stream (framing_of tcp) first_id calls)) (show_bytes (ref_session_stream tcp first_id spec)).
 
 (* ---- C04: (kind, start, count/value, reply pdu); the request is built as the API builds it.
    The PDU is passed as (length, big-endian number) - one hexadecimal literal parses much faster
    than a list of 250 numbers - and expanded here. ---- *)
-Fixpoint bytes_of_aux (len : nat) (x : N) (acc : list N) : list N :=
-  match len with O => acc | S l => bytes_of_aux l (N.shiftr x 8) (N.land x 255 :: acc) end.
-Definition bytes_of (len : nat) (x : N) : list N := bytes_of_aux len x [].
 Definition resp_case := (bool * N * N * N * N * (nat * N))%type.   (* literal?, style, kind, start, count/value, pdu *)
-
-Definition show_hex4 (v : N) : string := show_byte (v / 256) ++ show_byte (v mod 256).
-Fixpoint show_bits (l : list (N * bool)) : string :=
-  match l with [] => "" | (_, b) :: r => String (if b then "1" else "0")%char (show_bits r) end.
-Fixpoint show_regs (l : list (N * N)) : string :=
-  match l with [] => "" | (_, v) :: r => show_hex4 v ++ show_regs r end.
-Definition first_index {A} (l : list (N * A)) : string :=
-  match l with [] => "-" | (i, _) :: _ => show_N i end.
-Fixpoint consecutive {A} (i : N) (l : list (N * A)) : bool :=
-  match l with [] => true | (j, _) :: r => (i =? j) && consecutive (i + 1) r end.
-Definition show_indexed {A} (body : list (N * A) -> string) (l : list (N * A)) : string :=
-  match l with
-  | [] => "OK - -"
-  | (i, _) :: _ => if consecutive i l then "OK " ++ show_N i ++ " " ++ body l else "OKX"
-  end.
-Definition show_response (r : response) : string :=
-  match r with
-  | RespBits l => show_indexed show_bits l
-  | RespRegisters l => show_indexed show_regs l
-  | RespCoil i v => "OK " ++ show_N i ++ " " ++ (if v then "1" else "0")
-  | RespRegister i v => "OK " ++ show_N i ++ " " ++ show_hex4 v
-  | RespRange s n => "OK " ++ show_N s ++ " " ++ show_N n
-  end.
 
 Definition run_resp (x : resp_case) : string :=
   let '(lit, style, kind, s, c, (plen, pnum)) := x in
